@@ -17,6 +17,7 @@ import (
 	"encoding/json"
 	"fmt"
 	"math"
+	"math/big"
 	"math/rand"
 	"os"
 	"sort"
@@ -111,6 +112,8 @@ func famSummaries(mode string, args []string) error {
 				return smReplaySample(&c)
 			case "cmp", "cmplarge":
 				return smReplayCmp(&c)
+			case "normallarge":
+				return smReplayNormalLarge(&c)
 			case "delta":
 				return smReplayDelta(&c)
 			case "range":
@@ -529,6 +532,13 @@ func smReplaySample(c *smCase) Verdict {
 					vd.Concrete = fmt.Sprint(vals)
 					return vd
 				}
+				// "the mean with its t interval": Student's t with n-1 degrees of freedom puts the
+				// reported confidence (at least the requested one) between -t and t
+				if cov := 1 - 2*smTUpper(t, float64(n-1)); !(sum.Confidence >= cf-smTol) || math.Abs(cov-sum.Confidence) > 1e-8 {
+					vd := fail("normal-interval-not-t-interval", "AssumeNormal.Summary(%v, %v): half width %v = %v standard errors; Student's t with %d degrees of freedom puts %v between -+ that, reported confidence %v", vals, cf, up, t, n-1, cov, sum.Confidence)
+					vd.Concrete = fmt.Sprint(vals)
+					return vd
+				}
 			}
 		}
 	}
@@ -549,6 +559,171 @@ func smTNote(n int, c smRat, t float64) string {
 	}
 	smTSeen[key] = t
 	return ""
+}
+
+// ---------------------------------------------------------------- normal model, samples of 1..70 values
+
+// smTUpper is the textbook upper tail P(T > t), t >= 0, of Student's t distribution with v >= 1
+// degrees of freedom, from the density alone: with x = sqrt(v) cot(psi),
+//
+//	P = Gamma((v+1)/2) / (sqrt(pi) Gamma(v/2)) * Int_0^a sin^(v-1)(psi) dpsi,   a = atan(sqrt(v)/t),
+//
+// by the tanh-sinh rule over the part of [0, a] where the integrand exceeds e^-100 of its
+// maximum (agrees to 2e-13 with the finite series of Abramowitz & Stegun 26.7.3/4 for integer
+// v). Independent of the distribution code the summaries are computed with.
+func smTUpper(t, v float64) float64 {
+	if t == 0 {
+		return 0.5
+	}
+	if math.IsInf(t, 1) {
+		return 0
+	}
+	a := math.Atan2(math.Sqrt(v), t)
+	lg1, _ := math.Lgamma((v + 1) / 2)
+	lg2, _ := math.Lgamma(v / 2)
+	lsa := math.Log(math.Sin(a))
+	lo := 0.0
+	if v > 1 {
+		lo = math.Asin(math.Sin(a) * math.Exp(-100/(v-1)))
+	}
+	f := func(psi float64) float64 {
+		if v == 1 {
+			return 1
+		}
+		if psi <= 0 {
+			return 0
+		}
+		return math.Exp((v - 1) * (math.Log(math.Sin(psi)) - lsa))
+	}
+	half := (a - lo) / 2
+	const h = 1.0 / 64
+	sum := 0.0
+	for k := -400; k <= 400; k++ {
+		u := math.Pi / 2 * math.Sinh(float64(k)*h)
+		w := math.Pi / 2 * math.Cosh(float64(k)*h) / (math.Cosh(u) * math.Cosh(u))
+		var x float64
+		if u > 0 {
+			x = a - half*(2/(1+math.Exp(2*u)))
+		} else {
+			x = lo + half*(2/(1+math.Exp(-2*u)))
+		}
+		sum += w * f(x)
+	}
+	return math.Exp(lg1-lg2+(v-1)*lsa) / math.Sqrt(math.Pi) * sum * h * half
+}
+
+// smMeanVar: exact mean and variance (n-1) of the floats, as rationals.
+func smMeanVar(xs []float64) (mean, vr *big.Rat) {
+	n := int64(len(xs))
+	mean, vr = new(big.Rat), new(big.Rat)
+	for _, x := range xs {
+		mean.Add(mean, new(big.Rat).SetFloat64(x))
+	}
+	mean.Quo(mean, new(big.Rat).SetInt64(n))
+	if n < 2 {
+		return
+	}
+	for _, x := range xs {
+		d := new(big.Rat).Sub(new(big.Rat).SetFloat64(x), mean)
+		vr.Add(vr, d.Mul(d, d))
+	}
+	vr.Quo(vr, new(big.Rat).SetInt64(n-1))
+	return
+}
+
+// smWelchExact: Welch's t^2 and the Welch-Satterthwaite degrees of freedom of two samples with at
+// least two values each, in exact rationals; ok = false when both variances vanish.
+func smWelchExact(x, y []float64) (t2, dof float64, ok bool) {
+	m1, v1 := smMeanVar(x)
+	m2, v2 := smMeanVar(y)
+	if v1.Sign() == 0 && v2.Sign() == 0 {
+		return 0, 0, false
+	}
+	n1, n2 := new(big.Rat).SetInt64(int64(len(x))), new(big.Rat).SetInt64(int64(len(y)))
+	a1, a2 := new(big.Rat).Quo(v1, n1), new(big.Rat).Quo(v2, n2)
+	se2 := new(big.Rat).Add(a1, a2)
+	d := new(big.Rat).Sub(m1, m2)
+	rt2 := new(big.Rat).Quo(new(big.Rat).Mul(d, d), se2)
+	one := big.NewRat(1, 1)
+	den := new(big.Rat).Add(
+		new(big.Rat).Quo(new(big.Rat).Mul(a1, a1), new(big.Rat).Sub(n1, one)),
+		new(big.Rat).Quo(new(big.Rat).Mul(a2, a2), new(big.Rat).Sub(n2, one)))
+	rdof := new(big.Rat).Quo(new(big.Rat).Mul(se2, se2), den)
+	t2, _ = rt2.Float64()
+	dof, _ = rdof.Float64()
+	return t2, dof, true
+}
+
+// smReplayNormalLarge: the normal model's summary of samples of c.N values (1..70) at level c.C.
+// The samples are drawn here (integers, few levels with many repetitions, full mantissas,
+// rescaled, shifted, shuffled); mean and variance are evaluated exactly.
+func smReplayNormalLarge(c *smCase) Verdict {
+	rng := newRand(int64(c.Serial)*7368787 + 29)
+	thr := benchmath.DefaultThresholds
+	n, cf := c.N, c.C.f()
+	for shape := 0; shape < 4; shape++ {
+		vals := make([]float64, n)
+		switch shape {
+		case 0: // integers around a seed-chosen offset
+			off := float64(rng.Intn(2001) - 1000)
+			for i := range vals {
+				vals[i] = off + float64(rng.Intn(401)-200)
+			}
+		case 1: // few levels, many repetitions (possibly constant)
+			k := 1 + rng.Intn(4)
+			for i := range vals {
+				vals[i] = float64(rng.Intn(k)*3 + 10)
+			}
+		case 2: // full mantissas
+			for i := range vals {
+				vals[i] = rng.NormFloat64()*0.3 + 1
+			}
+		case 3: // times 2^k, negative values
+			k := rng.Intn(81) - 40
+			for i := range vals {
+				vals[i] = -math.Ldexp(float64(1+rng.Intn(1000)), k)
+			}
+		}
+		maxAbs := 0.0
+		for _, v := range vals {
+			maxAbs = math.Max(maxAbs, math.Abs(v))
+		}
+		rm, rv := smMeanVar(vals)
+		mean, _ := rm.Float64()
+		vr, _ := rv.Float64()
+		sum := benchmath.AssumeNormal.Summary(smSample(vals, &thr), cf)
+		mk := func(sig, format string, args ...interface{}) Verdict {
+			vd := fail(sig, "AssumeNormal.Summary(%d values, %v): %s", n, cf, fmt.Sprintf(format, args...))
+			vd.Concrete = fmt.Sprint(vals)
+			vd.Got = fmt.Sprintf("%+v", sum)
+			return vd
+		}
+		if !(math.Abs(sum.Center-mean) <= smTol*maxAbs) {
+			return mk("normal-centre-not-mean", "centre %v, mean %v", sum.Center, mean)
+		}
+		if n < 2 {
+			continue // one value has no t interval
+		}
+		up, down := sum.Hi-sum.Center, sum.Center-sum.Lo
+		if !(up >= 0 && down >= 0) || !smClose(up, down, 1e-9, 1e-12*maxAbs) {
+			return mk("normal-interval-not-symmetric", "centre %v lo %v hi %v", sum.Center, sum.Lo, sum.Hi)
+		}
+		if !(sum.Confidence >= cf-smTol) || sum.Confidence > 1+smTol {
+			return mk("normal-confidence-below-requested", "reported confidence %v", sum.Confidence)
+		}
+		if rv.Sign() == 0 {
+			if !(up <= 1e-12*maxAbs) {
+				return mk("normal-interval-not-t-interval", "constant sample: lo %v hi %v around %v", sum.Lo, sum.Hi, sum.Center)
+			}
+			continue
+		}
+		t := up * math.Sqrt(float64(n)) / math.Sqrt(vr)
+		if cov := 1 - 2*smTUpper(t, float64(n-1)); math.Abs(cov-sum.Confidence) > 1e-8 {
+			return mk("normal-interval-not-t-interval", "half width %v = %v standard errors; Student's t with %d degrees of freedom puts %v between -+ that, reported confidence %v",
+				up, t, n-1, cov, sum.Confidence)
+		}
+	}
+	return pass()
 }
 
 // ---------------------------------------------------------------- (5) comparison
@@ -759,6 +934,19 @@ func smReplayCmp(c *smCase) Verdict {
 					}
 				}
 				return mk(sig, "P(s1,s2)=%v P(s2,s1)=%v; the property requires one value in [0,1] for both orders", p12, p21)
+			}
+			// normal model: the p-value is Welch's - twice the upper tail of |t| of Student's t with the
+			// Welch-Satterthwaite degrees of freedom, both evaluated in exact rationals on the samples
+			if c.Model == "normal" && len(c12.Warnings) == 0 && len(x) >= 2 && len(y) >= 2 {
+				if t2, dof, ok := smWelchExact(x, y); ok {
+					want := 1.0
+					if t2 > 0 {
+						want = 2 * smTUpper(math.Sqrt(t2), dof)
+					}
+					if !smClose(p12, want, 1e-9, 1e-13) {
+						return mk("normal-compare-p-not-welch", "P=%v; Welch's t^2=%v with %v degrees of freedom has the two-sided p-value %v", p12, t2, dof, want)
+					}
+				}
 			}
 			// exact permutation value for small untied samples
 			if c.Model == "none" && !large && !c.Tied {
